@@ -1,0 +1,9 @@
+//go:build verif
+
+package tokenexchange
+
+// Comment-only file: contracts read by /verif's govc (see pkg/oidc/zz_verif_contracts.go).
+
+// AuthFn returns (nil, nil) when no client authentication is configured.
+//@ func tokenexchange.OAuthTokenExchange.AuthFn
+//@   requires valid(te)
